@@ -370,6 +370,7 @@ class Oracles:
             chance = rec["u"] < act.prob
         rec["chance"] = chance
         blocked = model.why_blocked(cfg, pre, act)
+        rec["blocked"] = blocked
         side = "none" if rec["u"] is None else (
             "lo" if rec["u"] < act.prob else "hi")
         sim.classes.add(f"{act.kind}|{blocked or 'net_ok'}|"
@@ -905,7 +906,11 @@ class Oracles:
                     and np.array_equal(lo["post_t"], hi["post_t"])
                     and feq(lo["info"].get("value"), hi["info"].get("value"))
                     and feq(lo["reward"], hi["reward"]))
-            if same and not rec["net_pre"]:
+            if same and not rec["net_pre"] and \
+                    rec.get("blocked") != "low_access":
+                # (an on-host access level below req_access can only be the
+                # sole failing condition for self-built actions; which error
+                # flag such a failure carries is not pinned by the statement)
                 same = all(bool(lo["info"].get(k)) == bool(hi["info"].get(k))
                            for k in FLAG_KEYS)
             if not same:
